@@ -157,11 +157,17 @@ func main() {
 		}
 		runServerScenario(a[0] == "1", a[1], strings.Split(a[2], ","), os.Stdout)
 	case "probe":
-		if len(os.Args) != 4 {
-			fmt.Fprintln(os.Stderr, "usage: vh probe out.lean out.json")
+		if len(os.Args) != 4 && len(os.Args) != 5 {
+			fmt.Fprintln(os.Stderr, "usage: vh probe out.lean out.json [outC18.lean]")
 			os.Exit(2)
 		}
 		probe(os.Args[2], os.Args[3])
+		if len(os.Args) == 5 {
+			if err := writeC18Facts(os.Args[4]); err != nil {
+				fmt.Fprintln(os.Stderr, "C18 facts:", err)
+				os.Exit(1)
+			}
+		}
 	default:
 		fmt.Fprintln(os.Stderr, "unknown command", os.Args[1])
 		os.Exit(2)
